@@ -163,7 +163,7 @@ def cmp_close(prop, case, impl, model):
     if 'dialerr' in impl or 'modelerror' in model:
         return [('disagree', 'close:setup', str(impl.get('dialerr')) + ' ' + str(model.get('modelerror'))[:200])]
     out = []
-    steps = case.get('steps', '').split('|')
+    steps = [x for x in case.get('steps', '').split('|') if not x.startswith('pmsg')]   # pmsg records no result unless it failed
     ir, mr = impl.get('res', '').split(','), model.get('res', '').split(',')
     ic, mc = impl.get('closes', ''), model.get('closes', '')
     # error closes (1002 after a malformed peer Close) carry a reason text the model does not predict: compare the code
@@ -178,7 +178,7 @@ def cmp_close(prop, case, impl, model):
         out.append(('violation', 'close:frames', 'Close frames written %s, expected %s' % (ic[:200], mc[:200])))
     for k, (a, b) in enumerate(zip(ir, mr)):
         if a != b:
-            out.append(('violation', 'close:result:%s' % steps[k].split('~')[0], 'step %d (%s) returned %s, expected %s' % (k, steps[k][:40], a, b)))
+            out.append(('violation', 'close:result:%s' % steps[min(k, len(steps) - 1)].split("~")[0], "step %d (%s) returned %s, expected %s" % (k, steps[min(k, len(steps) - 1)][:40], a, b)))
             break
     if impl.get('status') != model.get('status') and 'peerclose' in case.get('steps', ''):
         out.append(('violation', 'close:status', 'CloseStatus %s, expected %s' % (impl.get('status'), model.get('status'))))
